@@ -234,7 +234,11 @@ class Walker(object):
             self.children(lambda: b.data_frames, self.data_frame) + [CLOSE]
 
     def file(self, f):
-        return [OPEN, KIND["File"]] + self.children(lambda: f.blocks, self.block) + \
+        ftimes = []
+        if self.with_times:
+            ftimes = [safe(lambda: int(f.created_at)), safe(lambda: int(f.updated_at))]
+            self.stamps["file"] = ftimes
+        return [OPEN, KIND["File"]] + ftimes + self.children(lambda: f.blocks, self.block) + \
             self.children(lambda: f.sections, self.section) + [CLOSE]
 
 
